@@ -65,11 +65,53 @@ def log_nested(f):
     return nested
 
 
-def sites(prog, f):
+WORD_SINKS = {"mpq_set_ui": "unsigned long -> rational", "mpq_set_si": "long -> rational", "mpz_set_ui": "unsigned long -> integer",
+              "mpz_set_si": "long -> integer"}
+
+
+def _word_bounded(prog, f, var):
+    """the machine-word variable is assembled digit by digit (v = 10 * v + d) in a loop whose trip count is bounded by a constant
+    of at most 19: every value fits 64 bits"""
+    from .certdep import natural_loops
+    loops, dom, succ = natural_loops(prog, f)
+    accs = [b["id"] for b, i, e in f.elements() if e[0] == "A" and is_var(e[1][2], name=var, kind="l")
+            and any(const_of(nd) == 10 for nd in walk(e[1][3]))]
+    if not accs:
+        return None
+    bounds = []
+    for ab in accs:
+        inner = sorted((h for h in loops if ab in loops[h]), key=lambda h: len(loops[h]))
+        if not inner:
+            return None
+        ks = []
+        for x in loops[inner[0]]:
+            c = f.blocks[x].get("c")
+            if c is None:
+                continue
+            c = strip(c)
+            if isinstance(c, list) and c and c[0] == "b" and c[1] in ("<", "<=") and is_var(c[2], kind="l") and const_of(c[3]) is not None:
+                ks.append(const_of(c[3]) + (1 if c[1] == "<=" else 0))
+        if not ks:
+            return None
+        bounds.append(min(ks))
+    return max(bounds)
+
+
+def sites(prog, f, word=False):
     """yield (loc, kind, description, call node, in_log)"""
     nested = log_nested(f)
     for b, i, c in f.calls():
         n = callee(c)
+        if word and n in WORD_SINKS and len(c[3]) >= 2 and const_of(c[3][1]) is None:
+            v = strip(c[3][1])
+            k = _word_bounded(prog, f, v[2]) if is_var(v, kind="l") else None
+            if k is not None and k <= 19:
+                yield c[4], n, "at most %d digits" % k, c, "int"
+            elif is_var(v) and (f.var_type(v) or "").replace("const ", "").strip() in ("int", "unsigned int", "unsigned", "short", "char") and k is None:
+                yield c[4], n, "int-sized argument", c, "int"
+            else:
+                yield c[4], n, WORD_SINKS[n] + " (a literal assembled in a machine word wraps beyond 64 bits)", c, False
+            continue
         if n in SINKS:
             if n in ("mpq_EGlpNumSet", "mpq_set_d", "mpf_set_d", "mpz_set_d") and len(c[3]) >= 2 and _int_valued(f, c[3][1]):
                 yield c[4], n, "integer-valued argument", c, "int"
@@ -117,7 +159,7 @@ def run(prog, scopes, exceptions=None, rule="R-EXACT", floors=()):
                 continue
             if f.name in SINKS:
                 continue   # the conversion routine itself; its call sites carry the obligation
-            for loc, sink, desc, c, in_log in sites(prog, f):
+            for loc, sink, desc, c, in_log in sites(prog, f, word=sc.get("word", False)):
                 n_sites += 1
                 if (k, loc, sink) in seen:
                     continue
